@@ -245,6 +245,8 @@ def nonlinear_config(h, mesh, spec, which, free=None):
         from skfem.autodiff import NonlinearForm
         import skfem.autodiff.helpers as ah
         import skfem.helpers as nh
+        fkw = {}
+        extra = lambda p0: dict(p=p0)
         if which == 'cubic':
             nl = lambda u, v, w: (1 + u * u) * ah.dot(ah.grad(u), ah.grad(v)) + u ** 3 * v - w.x[0] * v
             lin = lambda du, v, w: ((1 + w.p * w.p) * nh.dot(nh.grad(du), nh.grad(v)) + 2 * w.p * du * nh.dot(nh.grad(w.p), nh.grad(v))
@@ -254,9 +256,27 @@ def nonlinear_config(h, mesh, spec, which, free=None):
             nl = lambda u, v, w: ah.dot(ah.grad(u), ah.grad(v)) + 2 * u * v.grad[0] - v
             lin = lambda du, v, w: nh.dot(nh.grad(du), nh.grad(v)) + 2 * du * v.grad[0]
             res = lambda v, w: nh.dot(nh.grad(w.p), nh.grad(v)) + 2 * w.p * v.grad[0] - v
+        elif which == 'energy':
+            # hessian=True: the integrand is an energy density; Jacobian = second variation, rhs = minus the first variation
+            fkw = dict(hessian=True)
+            nl = lambda u, w: ah.dot(ah.grad(u), ah.grad(u)) / 2 + u ** 4 / 4 + u * u * u.grad[0] - w.x[0] * u
+            lin = lambda du, v, w: (nh.dot(nh.grad(du), nh.grad(v)) + 3 * w.p * w.p * du * v
+                                    + 2 * du * v * w.p.grad[0] + 2 * w.p * v * du.grad[0] + 2 * w.p * du * v.grad[0])
+            res = lambda v, w: (nh.dot(nh.grad(w.p), nh.grad(v)) + w.p ** 3 * v + 2 * w.p * v * w.p.grad[0] + w.p * w.p * v.grad[0] - w.x[0] * v)
+        elif which == 'vector':
+            nl = lambda u, v, w: ah.ddot(ah.grad(u), ah.grad(v)) + ah.dot(u, u) * ah.dot(u, v) + u[0] * u.grad[1, 0] * v[1] - w.x[0] * v[0]
+            lin = lambda du, v, w: (nh.ddot(nh.grad(du), nh.grad(v)) + 2 * nh.dot(w.p, du) * nh.dot(w.p, v) + nh.dot(w.p, w.p) * nh.dot(du, v)
+                                    + du[0] * w.p.grad[1, 0] * v[1] + w.p[0] * du.grad[1, 0] * v[1])
+            res = lambda v, w: (nh.ddot(nh.grad(w.p), nh.grad(v)) + nh.dot(w.p, w.p) * nh.dot(w.p, v) + w.p[0] * w.p.grad[1, 0] * v[1]
+                                - w.x[0] * v[0])
+        elif which == 'composite':
+            nl = lambda u, q, v, r, w: ah.dot(ah.grad(u), ah.grad(v)) + u * q * v + q * r + u * u * r - w.x[0] * r
+            lin = lambda du, dq, v, r, w: (nh.dot(nh.grad(du), nh.grad(v)) + (du * w.pq + w.pu * dq) * v + dq * r + 2 * w.pu * du * r)
+            res = lambda v, r, w: (nh.dot(nh.grad(w.pu), nh.grad(v)) + w.pu * w.pq * v + w.pq * r + w.pu * w.pu * r - w.x[0] * r)
+            extra = lambda p0: dict(pu=p0[0], pq=p0[1])
         else:
             raise ValueError(which)
-        F = NonlinearForm(nl, dtype=dt)
+        F = NonlinearForm(nl, dtype=dt, **fkw)
         if h.sym_mode:
             (idx, data, shape, _), (idx1, data1, shape1, _) = F._assemble(basis, x=u0)
             J = np.zeros(tuple(int(x) for x in shape), dtype=object)
@@ -272,17 +292,17 @@ def nonlinear_config(h, mesh, spec, which, free=None):
         Bi = S.BilinearForm(lin, dtype=dt)
         Li = S.LinearForm(res, dtype=dt)
         if h.sym_mode:
-            (ri, ci), di, shp, _ = Bi._assemble(basis, p=p0)
+            (ri, ci), di, shp, _ = Bi._assemble(basis, **extra(p0))
             Jh = np.zeros((N, N), dtype=object)
             for r, c, d in zip(ri, ci, di):
                 Jh[r, c] = Jh[r, c] + d
-            o = Li._assemble(basis, p=p0)
+            o = Li._assemble(basis, **extra(p0))
             rh = np.zeros(N, dtype=object)
             for r, d in zip(np.asarray(o[0]).reshape(-1), o[1]):
                 rh[r] = rh[r] + d
         else:
-            Jh = Bi.assemble(basis, p=p0).toarray()
-            rh = Li.assemble(basis, p=p0)
+            Jh = Bi.assemble(basis, **extra(p0)).toarray()
+            rh = Li.assemble(basis, **extra(p0))
         h.sample(dict(mesh=mesh, element=spec, integrand=which, N=N))
         h.equal('Jacobian == hand-linearised bilinear form (rows = test functions)', J, Jh, scale=None if h.sym_mode else max(1.0, float(np.abs(Jh).max())))
         h.equal('right-hand side == minus the residual', np.asarray(rhs), -np.asarray(rh))
@@ -367,6 +387,11 @@ def build_configs(tier, seed):
         for which in ('cubic', 'linear'):
             cfgs.append(dict(name='nonlinear/%s/%s/%s' % (mesh, spec, which), fn=nonlinear_config, kw=dict(mesh=mesh, spec=spec, which=which, free=free),
                              opts=dict(timeout=900)))
+    for mesh, spec, which, free in [('tri2', 'ElementTriP1', 'energy', [3]), ('line3perm', 'ElementLineP2', 'energy', None),
+                                    ('tri2', 'ElementVector(ElementTriP1())', 'vector', [3]),
+                                    ('tri2', 'ElementComposite(ElementTriP1(),ElementTriP0())', 'composite', [3])]:
+        cfgs.append(dict(name='nonlinear/%s/%s/%s' % (mesh, spec, which), fn=nonlinear_config, kw=dict(mesh=mesh, spec=spec, which=which, free=free),
+                         opts=dict(timeout=900)))
     for scale in (1.0, 2.0 ** -24):
         cfgs.append(dict(name='nonlinear-floatpath/tri2/ElementTriP1/scale=%g' % scale, fn=nonlinear_floatpath_config,
                          kw=dict(mesh='tri2', spec='ElementTriP1', scale=scale), opts=dict(timeout=600)))
@@ -379,7 +404,7 @@ META = dict(
                 'det != 0, Levi-Civita cross/curl, ...) for all entry values, and NumPy variant == JAX variant.  NonlinearForm._assemble runs at a SYMBOLIC linearisation point with jax.linearize replaced by a forward-mode stand-in: Jacobian == hand-linearised bilinear form, right-hand side == minus the residual, linear integrands reduce to ordinary assembly.',
     symbolic='all tensor entries',
     bounds=dict(shapes='2x2 and 3x3 tensors, vectors of length 2/3; trailing axes (1,1) [quick] + (2,3), (2,) [thorough]'),
-    outside=['JAX own tracing and differentiation (jax.linearize/jvp are replaced by a stand-in honouring their contract)', 'the hessian option of NonlinearForm', 'vector/composite NonlinearForms',
+    outside=['JAX own tracing and differentiation (jax.linearize/jvp are replaced by a stand-in honouring their contract)', 
              'float rounding'],
     stubs=[],
     assumptions=['jnp.einsum/array/zeros_like are interpreted by their NumPy namesakes when the JAX helper source runs symbolically; '
